@@ -367,6 +367,39 @@ def p5_empty_tours_removed_last(F, r):
         r.fail("restore callers floor", f"only {len(set(users))} callers of InsertionContext::restore (6 counted on the pinned tree)")
 
 
+def x1_relation_jobs_not_clustered(F, r):
+    """vicinity clustering: the job filter handed to the clustering is computed, on EVERY alternative, from the ids of jobs bound
+    by relations (a relation names its jobs individually; a job merged into a cluster can no longer be placed where its relation
+    says, or is served twice). Must-derive dataflow through branches, Option combinators, helpers and closures."""
+    mod = "vrp_pragmatic::format::problem::clustering_reader"
+    n = 0
+
+    def is_source(fn, kind, x):
+        if kind == "place":
+            return any(isinstance(e, list) and e[0] == "f" and e[1].endswith("model::Plan") and e[2] == "relations" for e in x["p"])
+        return False
+
+    for fid, fn in sorted(F.fns.items()):
+        if fn.get("module") != mod or "::promoted[" in fid:
+            continue
+        for bi, si, s in mir.stmts(fn):
+            rv = s["r"]
+            if rv["k"] == "agg" and rv.get("ak") == "adt" and rv.get("n", "").endswith("FilterPolicy#FilterPolicy") and "job_filter" in rv.get("fs", []):
+                n += 1
+                op = rv["o"][rv["fs"].index("job_filter")]
+                inst = f"{fid.split('::')[-1]}: job filter"
+                v = mir.must_derive(F, fn, op, is_source)
+                if v is True:
+                    r.ok(inst, "on every alternative the filter is computed from plan.relations")
+                elif v is None:
+                    r.ok(inst, "NOT decided: the filter's state is completed in place (through &mut) or through an indirect call")
+                else:
+                    r.fail(inst, "on some alternative (a branch, or one arm of an Option combinator) the clustering job filter is built without the ids of the jobs "
+                           "bound by relations: such a job can be merged into a cluster although its relation pins it individually", F.loc(fid, s["ln"]))
+    if n == 0:
+        raise AnchorError("clustering_reader: no FilterPolicy { job_filter, .. } construction found")
+
+
 def q1_no_self_comparison(F, r):
     from .common import lints_rule
     n = lints_rule(F, r, ("vrp_pragmatic::format", "vrp_core::construction::heuristics", "vrp_core::construction::probing", "vrp_core::construction::clustering",
@@ -391,5 +424,6 @@ def run(ctx):
     ctx.run("C02-O1", "sub-jobs of a multi job are inserted left to right (leg search honours the start index)", o1_subjob_order, floor=3)
     ctx.run("C02-P6", "functions that move jobs into a place clean the places the jobs can come from (exclusive job places, reasoned table)", p6_moves_clean_sources, floor=18)
     ctx.run("C02-P5", "empty tours are dropped after the last state acceptance in every function that drops them", p5_empty_tours_removed_last, floor=3)
+    ctx.run("C02-X1", "vicinity clustering never merges a job bound by a relation: the job filter must-derives from plan.relations on every alternative", x1_relation_jobs_not_clustered, floor=1)
     ctx.run("C02-Q1", "no comparison relates a value to itself in job/vehicle matching code (constant guard)", q1_no_self_comparison, floor=1)
     ctx.run("C02-P3", "final report: unassigned ∪ required reported; every route reported and written", p3_final_report, floor=4)
